@@ -481,6 +481,13 @@ def main(check, tier, base_seed):
         print("%s %s: %d runs, %d distinct non-trivial, %d violations, %d known findings, %.1fs"
               % (prop, tier, tot["evaluations"], len(tot["nontrivial_digests"]), nviol,
                  len(known_hit), wall))
+        # a batch that explored nothing (every run ended before the property could be exercised) must not read
+        # as "held on everything explored": the check says when its own exploration was vacuous
+        if exit_code == 0 and hasattr(check, "vacuous"):
+            why = check.vacuous(dict(tot["stats"]), dict(tot["probes"]))
+            if why:
+                print("HARNESS-ERROR vacuous exploration: %s" % why)
+                return 2
         return exit_code
     except pool.HarnessError as e:
         print(str(e))
